@@ -392,3 +392,27 @@ MUTANTS += [
         (BF, "    visited = set()\n    queue = collections.deque([start])\n    visited.add(start)\n\n    if (ff_result and ff_result(start)) or (not ff_result):\n        yield start",
              "    visited = set()\n    queue = collections.deque([start])\n    visited.add(start)\n    start.bft_root = True\n\n    if (ff_result and ff_result(start)) or (not ff_result):\n        yield start\n    del start.bft_root")]),
 ]
+
+MUTANTS += [
+    # ---------------- generalised from the seeded changes: truthiness / identity / size thresholds ---------------
+    dict(id="c06_falsy_universe_treated_as_none", props=["C06"], edits=[
+        (BF, "            if (uni is not None) and (v not in uni.vertices):\n                continue\n\n            # make sure",
+             "            if uni and (v not in uni.vertices):\n                continue\n\n            # make sure")]),
+    dict(id="c06_dfti_falsy_universe", props=["C06"], edits=[
+        (DF, "            if (uni is not None) and (v not in uni.vertices):\n                continue\n\n            discovered.append(v)",
+             "            if uni and (v not in uni.vertices):\n                continue\n\n            discovered.append(v)")]),
+    dict(id="c04_falsy_link_skipped", props=["C04"], edits=[
+        (H, "    nbs = []\n    for link in vert.links:\n", "    nbs = []\n    for link in vert.links:\n        if not link:\n            continue\n")]),
+    dict(id="c09_falsy_link_skipped", props=["C09"], edits=[
+        (H, "    links = set()\n    for link in v1.links:\n", "    links = set()\n    for link in v1.links:\n        if not link:\n            continue\n")]),
+    dict(id="c08_bfs_falsy_universe", props=["C08"], edits=[
+        (BF, "            if (uni is not None) and (v not in uni.vertices):\n                continue\n\n            # check for a match first",
+             "            if uni and (v not in uni.vertices):\n                continue\n\n            # check for a match first")]),
+    dict(id="c16_rfunc_result_stripped", props=["C16"], edits=[
+        (PT, "                node = rfunc(end)\n", "                node = rfunc(end).strip() or rfunc(end)\n")]),
+    dict(id="c11_matrix_big_index_identity", props=["C11"], edits=[
+        (AM, "            if cell:\n", "            if cell and not (i is not j and i == j):\n")]),
+    dict(id="c14_sorted_relations_dedup", props=["C14"], edits=[
+        (PU, "    for link in links:\n        components.append(_one_link_to_puml(link, options))",
+             "    for text in sorted({_one_link_to_puml(link, options) for link in links} if len(links) > 40 else [_one_link_to_puml(link, options) for link in links]):\n        components.append(text)")]),
+]
